@@ -687,16 +687,30 @@ class _Fn:
         """a call as a key of `spec.calls`: the positional arguments other than string constants replaced by `_1`,
         `_2`, …; returns (key, the replaced arguments)"""
         import copy
-        c = copy.deepcopy(node)
-        holes, args = [], []
-        for a in node.args:
-            if isinstance(a, ast.Constant) and isinstance(a.value, str):
-                args.append(copy.deepcopy(a))
+        holes = []
+
+        def templ(call):
+            c = copy.copy(call)
+            # a method call on the result of a call (`d.get(k, {}).keys()`): the receiver's arguments are holes too,
+            # numbered first (Python evaluates the receiver first)
+            if isinstance(call.func, ast.Attribute) and isinstance(call.func.value, ast.Call) \
+                    and not call.func.value.keywords and not any(isinstance(a, ast.Starred) for a in call.func.value.args):
+                f = copy.copy(call.func)
+                f.value = templ(call.func.value)
+                c.func = f
             else:
-                holes.append(a)
-                args.append(ast.Name(id=f"_{len(holes)}", ctx=ast.Load()))
-        c.args = args
-        return ast.unparse(self._subst(c)), holes
+                c.func = copy.deepcopy(call.func)
+            args = []
+            for a in call.args:
+                if (isinstance(a, ast.Constant) and isinstance(a.value, str)) \
+                        or (isinstance(a, ast.Dict) and not a.keys):    # string constants and `{}` stay in the key
+                    args.append(copy.deepcopy(a))
+                else:
+                    holes.append(a)
+                    args.append(ast.Name(id=f"_{len(holes)}", ctx=ast.Load()))
+            c.args = args
+            return c
+        return ast.unparse(self._subst(templ(node))), holes
 
     def _call_atom(self, node, eff, as_statement=False):
         if any(isinstance(a, ast.Starred) for a in node.args):
@@ -1018,6 +1032,9 @@ class _Fn:
             return False                                   # only ever read by log / exception messages
         if isinstance(value, ast.List) and not value.elts and name in self.spec.local_types:
             return self._store(name, "[]", self.spec.local_types[name], depth, top, where, value)
+        if isinstance(value, ast.Call) and isinstance(value.func, ast.Name) and value.func.id == "set" \
+                and "set" not in self.assigned and "set" not in self.spec.params and not value.args and not value.keywords:
+            return self._store(name, "[]", "sset", depth, top, where, value)     # `set()`: the empty set of strings
         try:
             t, ty = self._expr_or_lowered(value, depth, where)
         except Unsupported:
@@ -1119,6 +1136,8 @@ class _Fn:
             return f"({x} ++ {t})"
         if tx == ty and elem_type(tx) is not None and isinstance(op, ast.Add):
             return f"({x} ++ {t})"
+        if (tx, ty) == ("sset", "sset") and isinstance(op, ast.BitOr):
+            return f"({x} ++ {t})"                          # a set is a list of which only membership is observed
         raise Unsupported(f"{where}: augmented assignment {type(op).__name__} of a {ty} to a {tx}")
 
     # -- if
@@ -1354,8 +1373,10 @@ class _Fn:
         accs = set()
         for b in body:
             for n in ast.walk(b):
-                if isinstance(n, ast.Name) and isinstance(n.ctx, ast.Store):
-                    accs.add(n.id)
+                if isinstance(n, ast.Name) and isinstance(n.ctx, ast.Store) \
+                        and not (n.id in self.loopvars and any(isinstance(f, ast.For) and f.target is n
+                                                               for bb in body for f in ast.walk(bb))):
+                    accs.add(n.id)                          # (the target of a nested loop is not an accumulator)
                 if isinstance(n, ast.Expr) and isinstance(n.value, ast.Call) and isinstance(n.value.func, ast.Attribute) \
                         and n.value.func.attr == "append" and isinstance(n.value.func.value, ast.Name):
                     accs.add(n.value.func.value.id)
@@ -1392,6 +1413,19 @@ class _Fn:
                 c = self.cond(b.test, False)
                 steps.append(f"(if {c} then {self._fold_seq(b.body, acc, where)} else "
                              f"{self._fold_seq(b.orelse, acc, where) if b.orelse else a})")
+            elif isinstance(b, ast.For):
+                # a nested loop that updates the same accumulator: an inner fold that starts from its current value
+                if b.orelse or not isinstance(b.target, ast.Name) or b.target.id not in self.loopvars \
+                        or any(b.target.id in sc for sc in self.scopes):
+                    raise Unsupported(f"{w}: nested loop `for {ast.unparse(b.target)} in …` (a plain name bound by this "
+                                      "loop only, no else)")
+                src, ts = self.expr(b.iter, False)
+                et = elem_type(ts)
+                if et is None:
+                    raise Unsupported(f"{w}: nested loop over a {ts} (lists only)")
+                v = lean_ident(b.target.id)
+                inner = self._under({b.target.id: (v, et)}, lambda: self._fold_seq(b.body, acc, where))
+                steps.append(f"({src}.foldl (fun {a} {v} => {inner}) {a})")
             else:
                 raise Unsupported(f"{w}: statement `{ast.unparse(b)[:60]}` in an accumulating loop")
         if not steps:
